@@ -5,8 +5,6 @@ Ltac Zify.zify_post_hook ::= Z.div_mod_to_equations.
 Open Scope N_scope.
 
 (* length styles that announce (or fix) how many bytes belong to the field *)
-Definition delimiting (ls : lenstyle) : bool :=
-  match ls with LEmpty | LTemperature => false | _ => true end.
 
 Lemma llv_parse_app d : forall rv a n p s, llv_parse d rv a = Ok (n, p) -> llv_parse d rv (a ++ s) = Ok (n, p ++ s).
 Proof.
